@@ -124,8 +124,38 @@ func (s *c12Session) submit(kind string, name int) *c12Handle {
 			return err
 		}
 	case "fetch":
-		c := s.client.Fetch(imap.SeqSetNum(1), &imap.FetchOptions{Flags: true})
-		wait = func() error { _, err := c.Collect(); return err }
+		// messages 1..3 (their UIDs are 101..103)
+		var set imap.SeqSet
+		set.AddRange(1, 3)
+		c := s.client.Fetch(set, &imap.FetchOptions{Flags: true})
+		wait = func() error {
+			l, err := c.Collect()
+			for _, m := range l {
+				got = append(got, int(m.SeqNum))
+			}
+			return err
+		}
+	case "uidfetch":
+		// UIDs 7..9 (their sequence numbers are 11..13)
+		var set imap.UIDSet
+		set.AddRange(7, 9)
+		c := s.client.Fetch(set, &imap.FetchOptions{Flags: true})
+		wait = func() error {
+			l, err := c.Collect()
+			for _, m := range l {
+				got = append(got, int(m.UID))
+			}
+			return err
+		}
+	case "esearch":
+		c := s.client.Search(&imap.SearchCriteria{}, &imap.SearchOptions{ReturnCount: true})
+		wait = func() error {
+			d, err := c.Wait()
+			if d != nil && err == nil {
+				got = append(got, int(d.Count))
+			}
+			return err
+		}
 	case "expunge":
 		c := s.client.Expunge()
 		wait = func() error {
@@ -233,7 +263,7 @@ func runC12(h *H) {
 	imports := []string{"From GoImap.Base Require Import Bytes.", "From GoImap.Model Require Import ClientConn ClientConnCorr."}
 	corr := h.NewCorr("events", imports, "cc_mismatches", 150).Type("cc_case")
 	corrData := h.NewCorr("data", imports, "cd_mismatches", 150).Type("cd_case")
-	h.Rule("real imapclient.Client against a scripted server: batches of 1..4 pipelined commands (NOOP, STATUS, LIST, FETCH, SEARCH, EXPUNGE) answered in every/random order with OK/NO/BAD (commands whose data would be ambiguous — two LISTs, two SEARCHes, two EXPUNGEs — in submission order), each LIST/SEARCH answer preceded by 0..3 data lines with globally unique items, a LOGIN whose synchronising literal the server refuses with a tagged NO or BAD, state-changing commands (LOGIN, SELECT of two mailboxes with their data block, UNSELECT, LOGOUT) on their own, unilateral EXISTS / EXPUNGE / FLAGS / PERMANENTFLAGS / FETCH / [CLOSED] / BYE-less noise interleaved anywhere, and finally the connection cut with commands still pending. After every step (closed by a NOOP round trip) State(), Mailbox() and the outcome of every Wait are compared with the model inside Coq and with a Go reference interpretation of the transcript (oracle: each command completes exactly once with the status of its own tagged response; a NO/BAD changes nothing else; the mailbox summary equals what the transcript implies; every LIST/SEARCH command's Collect/Wait returns exactly the data sent in answer to it; the data collected by LIST/SEARCH/EXPUNGE commands is also re-derived by the model's routing function). Non-trivial = a step delivered responses out of submission order or changed the mailbox summary; distinct by script.")
+	h.Rule("real imapclient.Client against a scripted server: batches of 1..4 pipelined commands (NOOP, STATUS, LIST, FETCH, UID FETCH, SEARCH, extended SEARCH, EXPUNGE) answered in every/random order with OK/NO/BAD (commands whose data would be ambiguous — two LISTs, two SEARCHes, two EXPUNGEs — in submission order), each LIST/SEARCH answer preceded by 0..3 data lines with globally unique items, a LOGIN whose synchronising literal the server refuses with a tagged NO or BAD, state-changing commands (LOGIN, SELECT of two mailboxes with their data block, UNSELECT, LOGOUT) on their own, unilateral EXISTS / EXPUNGE / FLAGS / PERMANENTFLAGS / FETCH / [CLOSED] / BYE-less noise interleaved anywhere, and finally the connection cut with commands still pending. After every step (closed by a NOOP round trip) State(), Mailbox() and the outcome of every Wait are compared with the model inside Coq and with a Go reference interpretation of the transcript (oracle: each command completes exactly once with the status of its own tagged response; a NO/BAD changes nothing else; the mailbox summary equals what the transcript implies; every LIST/SEARCH command's Collect/Wait returns exactly the data sent in answer to it; FETCH and UID FETCH get the messages of their own set whatever the order of the data items (UID last), extended SEARCH results are routed by their tag correlator even when answered out of order; the data collected by LIST/SEARCH/EXPUNGE commands is also re-derived by the model's routing function). Non-trivial = a step delivered responses out of submission order or changed the mailbox summary; distinct by script.")
 
 	runScript := func(seed int64, src string) {
 		rng := newRand(seed)
@@ -388,7 +418,7 @@ func runC12(h *H) {
 					nontrivial = true
 				}
 			case 4:
-				send(`* 1 FETCH (FLAGS (\Seen))`)
+				send(`* 20 FETCH (FLAGS (\Seen))`)
 				ev("EvOther")
 			default:
 				send("* OK still here")
@@ -411,6 +441,33 @@ func runC12(h *H) {
 					}
 					send("* SEARCH " + strings.Join(nums, " "))
 					ev("EvSearchData " + coqList(ns))
+					nontrivialData = true
+				}
+				send(fmt.Sprintf("T%d %s done", hd.tag, word))
+			} else if hd.kind == "fetch" || hd.kind == "uidfetch" {
+				// answers in a random order of the three messages; UID after FLAGS (the order of
+				// the data items is free)
+				for _, k := range rng.Perm(3)[:rng.Intn(4)] {
+					seq, uid := 1+k, 101+k
+					if hd.kind == "uidfetch" {
+						seq, uid = 11+k, 7+k
+					}
+					send(fmt.Sprintf(`* %d FETCH (FLAGS (\Seen) UID %d)`, seq, uid))
+					ev("EvOther")
+					if hd.kind == "uidfetch" {
+						hd.sent = append(hd.sent, uid)
+					} else {
+						hd.sent = append(hd.sent, seq)
+					}
+					nontrivialData = true
+				}
+				send(fmt.Sprintf("T%d %s done", hd.tag, word))
+			} else if hd.kind == "esearch" {
+				if status == 0 {
+					datum++
+					send(fmt.Sprintf(`* ESEARCH (TAG "T%d") COUNT %d`, hd.tag, datum))
+					ev("EvOther")
+					hd.sent = append(hd.sent, datum)
 					nontrivialData = true
 				}
 				send(fmt.Sprintf("T%d %s done", hd.tag, word))
@@ -446,8 +503,21 @@ func runC12(h *H) {
 			case r < 4: // pipelined plain commands answered in random order
 				k := 1 + rng.Intn(4)
 				var batch []*c12Handle
+				var kinds []string
+				plainSearch := false
 				for j := 0; j < k; j++ {
-					kind := []string{"noop", "status", "list", "fetch", "search", "expunge"}[rng.Intn(6)]
+					kind := []string{"noop", "status", "list", "fetch", "search", "expunge", "uidfetch", "esearch"}[rng.Intn(8)]
+					kinds = append(kinds, kind)
+					if kind == "search" {
+						plainSearch = true
+					}
+				}
+				for _, kind := range kinds {
+					if kind == "esearch" && plainSearch {
+						// a plain SEARCH and an extended SEARCH in flight together: untagged SEARCH
+						// data carries no correlator, so the two are not pipelined together here
+						kind = "search"
+					}
 					batch = append(batch, s.submit(kind, 0))
 					ev("EvSubmit " + kindCoq(kind, 0))
 				}
@@ -461,7 +531,7 @@ func runC12(h *H) {
 				}
 				// commands whose untagged data would be ambiguous (two LISTs, two SEARCHes, two
 				// EXPUNGEs) are answered in submission order (RFC 9051 5.5); everything else in any order
-				for _, kind := range []string{"list", "search", "expunge"} {
+				for _, kind := range []string{"list", "search", "expunge", "fetch", "uidfetch"} {
 					var pos []int
 					for i, pi := range perm {
 						if batch[pi].kind == kind {
@@ -618,6 +688,11 @@ func runC12(h *H) {
 		var dataObs []string
 		for _, hd := range s.handles {
 			hd.mu.Lock()
+			if hd.done && (hd.kind == "fetch" || hd.kind == "uidfetch" || hd.kind == "esearch") && fmt.Sprint(hd.data) != fmt.Sprint(hd.sent) && hd.status != 3 {
+				// routed by sequence number / UID / tag correlator: checked by the oracle only
+				desc["transcript"] = transcript
+				h.Fail("data-misrouted:"+hd.kind, fmt.Sprintf("command T%d (%s) was answered with data %v but its Collect/Wait returned %v", hd.tag, hd.kind, hd.sent, hd.data), desc)
+			}
 			if hd.done && (hd.kind == "list" || hd.kind == "search" || hd.kind == "expunge") {
 				dataObs = append(dataObs, fmt.Sprintf("(%d, %s)", hd.tag, coqNs(hd.data)))
 				if hd.kind != "expunge" && fmt.Sprint(hd.data) != fmt.Sprint(hd.sent) {
